@@ -47,6 +47,97 @@ def run(chk, repo):
     bitfields(chk, repo, d)
     shortcircuit(chk, repo, d)
     offsets(chk, repo, d)
+    append_only(chk, repo)
+    operand_widths(chk, repo)
+
+
+# statements that remove or insert instructions, allowed per function (read
+# and confirmed: the JSET inversion of AndComparison moves the Else block in
+# front of the jump and re-aims the one jump it moved across)
+SPLICE_ALLOWED = {E + "AndComparison.__exit__": 2}
+
+
+def append_only(chk, repo):
+    chk.doc("R03.5", "the instruction list only grows at its end; resolved "
+                     "jump offsets stay valid")
+    found = {}
+    total = 0
+    for f in repo.all_functions([repo.module("ebpfcat.ebpf"),
+                                 repo.module("ebpfcat.xdp"),
+                                 repo.module("ebpfcat.hashmap"),
+                                 repo.module("ebpfcat.arraymap")]):
+        for n in walk_no_nested(f):
+            hit = None
+            if isinstance(n, ast.Delete):
+                for t in n.targets:
+                    if isinstance(t, ast.Subscript) and (
+                            dotted(t.value) or "").endswith("opcodes"):
+                        hit = n
+            elif isinstance(n, ast.Assign):
+                for t in n.targets:
+                    if isinstance(t, ast.Subscript) and isinstance(
+                            t.slice, ast.Slice) and (
+                            dotted(t.value) or "").endswith("opcodes"):
+                        hit = n
+            elif isinstance(n, ast.Call) and isinstance(
+                    n.func, ast.Attribute) and n.func.attr in (
+                        "insert", "pop", "remove", "clear", "reverse",
+                        "sort") and (dotted(n.func.value) or ""
+                                     ).endswith("opcodes"):
+                hit = n
+            if hit is not None:
+                total += 1
+                found.setdefault(repo.qualname_of(f), []).append(hit)
+    chk.floor("R03.5", "splice statements on the instruction list", total, 2)
+    for q, hits in sorted(found.items()):
+        lim = SPLICE_ALLOWED.get(q, 0)
+        for i, h in enumerate(hits):
+            ok = i < lim
+            chk.ob("R03.5", q, f"`{unparse(h)[:60]}` does not move "
+                   f"instructions behind resolved jumps", ok, h,
+                   "the confirmed JSET/Else inversion" if ok else
+                   "removing or inserting an instruction shifts everything "
+                   "after it, while jumps that were already resolved "
+                   "across that point (the jump over the with-body, outer "
+                   "blocks, short-circuit jumps) keep their old offset and "
+                   "now skip or repeat an instruction")
+
+
+def operand_widths(chk, repo):
+    """R03.6: both operands of a jump are valid at the width of the jump"""
+    chk.doc("R03.6", "a signed 64-bit comparison sees both operands "
+                     "sign-extended to 64 bits")
+    sym = E + "SimpleComparison.compare"
+    f = repo.func(sym)
+    rc = [c for c in calls_in(f) if isinstance(c.func, ast.Attribute)
+          and c.func.attr == "calculate" and unparse(c.func.value)
+          == "self.right"]
+    need(len(rc) == 1 and len(rc[0].args) >= 2,
+         f"{sym}: calculation of the right operand not found")
+    w = rc[0].args[1]
+    ev = Evaluator(repo, f._module)
+    mk = repo.cls(E + "Expression")
+    fails = []
+    for ls in (True, False):
+        for ll in (True, False):
+            env = {"self": Obj(None, {"left": Obj(mk, {"signed": ls})}),
+                   "l_long": ll}
+            try:
+                got = ev.eval(w, env)
+            except (Unknown, Raised) as e:
+                raise AnalysisError(f"{sym}: cannot fold the width request "
+                                    f"`{unparse(w)}`: {e}")
+            if ls and ll and got is not True:
+                fails.append(f"signed 64-bit left operand: right operand "
+                             f"requested with long={got!r}")
+            if not (ls and ll) and got is True:
+                fails.append(f"left signed={ls} long={ll}: right operand "
+                             f"forced to 64 bit")
+    chk.ob("R03.6", sym, "the right operand of a signed 64-bit comparison "
+           "is computed in 64 bits", not fails, rc[0],
+           "; ".join(fails) or f"`{unparse(w)}`: a narrower signed variable "
+           f"on the right is loaded sign-extended to 64 bits, otherwise "
+           f"-1 as 'i' would compare as 4294967295")
 
 
 def table(chk, repo, d):
